@@ -441,6 +441,43 @@ def gen_pq_cases(tier, rng):
         for bs in (1, 2, 4, 7):
             for mode in "fmb":
                 cases.append(bat_case(fs, mode, bs, "all", [0], "special"))
+    # several readers of one chunk on one reader handle, one after the other: re-created column readers (after a full,
+    # a partial, no read at all) and batch readers created after column readers - on dictionary files in particular,
+    # with and without dictionary_page_offset (a loader must not leave anything behind in the shared chunk metadata)
+    for fs, kw in special:
+        if fs._impl is None:
+            continue
+        n = len(fs.rows(0, 0))
+        for ops in (f"r{n + 1},m,n,r{n + 1},m,h", f"r1,n,m,r{n + 1},n,s2,r{n + 1}", f"n,r2,n,n,q1,r{n + 1},m", f"s{n},n,h,r{n + 1},n,r1,m",
+                    f"m,h,n,r{n + 1}"):
+            for mode in "fmb":
+                cases.append(col_case(fs, 0, 0, mode, ops, "rereader", verify=mi % 2))
+                mi += 1
+        for pre in (0, 1, n + 1):
+            for bs in (2, n + 1):
+                for mode in "fmb":
+                    cases.append(bat_case(fs, mode, bs, "all", [0], "rereader", verify=f"1,p{pre}"))
+    # BYTE_ARRAY / FIXED_LEN_BYTE_ARRAY chunks in MANY small pages, reads and batches that span 10 and more pages
+    # (page buffers of finished pages are kept alive until the next read call: however many there are)
+    for typ, nullable, codec in (("ba", False, 0), ("ba", True, 1), ("fl3", False, 1), ("ba", False, 6)):
+        npages = rng.randrange(24, 40)
+        sizes = [rng.randrange(2, 6) for _ in range(npages)]
+        n = sum(sizes)
+        mask = []
+        for sz in sizes:
+            mask += rc.safe_nullmask(sz, rng) if nullable else [False] * sz
+        fs = FileSpec(codec, [Col("k", "i32", False), Col("v", typ, nullable)],
+                      [[rc.make_chunk("i32", [False] * n, [n]), rc.make_chunk(typ, mask, sizes)]])
+        cases.append(col_case(fs, 0, 0, "f", f"r{n + 1}", "ref"))
+        cases.append(col_case(fs, 0, 1, "f", f"r{n + 1}", "ref"))
+        for ops in (f"r{n + 1},m,h", f"r45,m,r{n},m", f"r7,r60,m,s50,r{n},h", f"q{n // 2},r{n},m", f"s{n - 3},r9,m", f"r1,r{n - 2},r5"):
+            for mode in "fmb":
+                cases.append(col_case(fs, 0, 1, mode, ops, "manypages", verify=mi % 2))
+                mi += 1
+        for bs in (1, 7, 45, 60, n - 1, n, n + 1):
+            for proj, pc in (("all", [0, 1]), ("i:1", [1])):
+                for mode in "fmb":
+                    cases.append(bat_case(fs, mode, bs, proj, pc, "manypages"))
     # a row group without rows between two others (src/reader/batch_reader.c "Handle empty row group")
     fe = empty_rowgroup_file(rng)
     for g in range(4):
